@@ -108,6 +108,28 @@ def parseSrcOp : List String → Option (Nat × SrcOp)
   | ["replace", i, xs] => do pure (← i.toNat?, .replace (← parseNats xs))
   | _ => none
 
+/-- Writes whose argument is another set of the pool (or the written set itself): `Replace(other)`,
+`AddAll(other)`, `DeleteAll(other)`.  The code takes a private snapshot of the argument first, so the op is the
+plain one on the argument's current listing; `replacemut i j x` is `Replace` with a view of `j` that is written
+(`x` added to `j`) right after it has been read — the snapshot must not notice. -/
+def parseAliasOp (mem : Nat → Nat → Bool) : List String → Option (List (Nat × SrcOp))
+  | ["replaceset", i, j] => do
+      let j ← j.toNat?
+      pure [(← i.toNat?, .replace ((List.range U).filter (mem j)))]
+  | ["replaceset", i, j, "ro"] => do
+      let j ← j.toNat?
+      pure [(← i.toNat?, .replace ((List.range U).filter (mem j)))]
+  | ["addall", i, j] => do
+      let j ← j.toNat?
+      pure [(← i.toNat?, .apply ((List.range U).filter (mem j)) [])]
+  | ["delall", i, j] => do
+      let j ← j.toNat?
+      pure [(← i.toNat?, .apply [] ((List.range U).filter (mem j)))]
+  | ["replacemut", i, j, x] => do
+      let j ← j.toNat?
+      pure [(← i.toNat?, .replace ((List.range U).filter (mem j))), (j, .apply [← x.toNat?] [])]
+  | _ => none
+
 def setAt {α : Type} (f : Nat → α) (i : Nat) (v : α) : Nat → α := fun j => if j == i then v else f j
 
 end Hive.Derived
